@@ -4,7 +4,7 @@ Require Import List ZArith Bool String.
 Import ListNotations.
 
 (* C18 -- no HTTP response reveals a configured password, as NON-INTERFERENCE: responses do not depend on the
-   values stored at sasl.<n>.password / notifier.<n>.password.
+   values stored at sasl.<n>.password (n possibly dotted: nested profiles) / notifier.<n>.password.
 
    cfg, cfg'  : any two configuration trees with the same shape, keys and values except at password paths
    route      : any handler name;  ps : any parameter list (any bytes: dots, upper case, empty ...)
@@ -113,6 +113,20 @@ Example C18_indirection_refuted : ex_leaks ex_bad_indirect [(pb "field", pb "pas
 Proof. exact ex_bad_indirect_refuted. Qed.
 Example C18_package_row_refuted : ex_leaks ex_bad_package [].
 Proof. exact ex_bad_package_refuted. Qed.
+(* nested profile names (sasl.prod.east inside sasl.prod): the child's password is a password path, two
+   configurations that differ only there agree_except_passwords, and a children read of sasl.<p>.east is rejected
+   (and leaks) although the same shape below notifier.<n>.extras is accepted *)
+Example C18_nested_profile_hypothesis :
+  agree_except_passwords (ex_nest "tango") (ex_nest "foxtrot") /\ ex_nest "tango" <> ex_nest "foxtrot".
+Proof. exact ex_nest_agree. Qed.
+Example C18_nested_profile_refuted :
+  reads_avoid_passwords ex_bad_nested = false /\
+  ex_observe ex_bad_nested (ex_nest "tango") "h"%string [(pb "name", pb "prod")]
+  <> ex_observe ex_bad_nested (ex_nest "foxtrot") "h"%string [(pb "name", pb "prod")].
+Proof. exact ex_bad_nested_refuted. Qed.
+Example C18_extras_accepted :
+  reads_avoid_passwords [RRow 1 "h" KChildren [PFix "notifier."; PParam "name"; PFix ".extras"] "viper.GetStringMapString" "" ""] = true.
+Proof. exact ex_extras_accepted. Qed.
 Example C18_unknown_rejected :
   reads_avoid_passwords [RRow 1 "h" KScalar [PFix "storage."; PUnknown "call f"; PFix ".x"] "viper.GetString" "" ""] = false
   /\ reads_avoid_passwords [RRow 1 "h" KUnknown [] "viper.Frobnicate" "" ""] = false.
